@@ -85,6 +85,13 @@ func Check_Operations() {
 	if op == 0 || op == 7 {
 		msgKey := sx.Choose("recordKey", 2)
 		r1 = rec(agg.Keys[msgKey], sx.Choose("reporter", 3))
+		if op == 0 && msgKey >= n && sx.Choose("recordLacksStartTime", 2) == 1 {
+			// the first record of a new flow lacks flowStartSeconds: its aggregation is
+			// refused with an error, and the error path is walked under the monitor too
+			// (on an existing flow such a record makes the library dereference a nil
+			// element - a robustness gap outside the listed properties, noted in DESIGN.md)
+			r1.OmitStart = true
+		}
 		if op == 7 {
 			r2 = rec(agg.Keys[(msgKey+1)%3], 0)
 		}
@@ -151,7 +158,7 @@ func sameOutcome(x, y outcome) bool {
 // state and the exports must equal those of one of the two sequential orders.
 func Check_Linearizable() {
 	k := agg.Keys[0]
-	scenario := sx.Choose("scenario", 5)
+	scenario := sx.Choose("scenario", 6)
 	mk := func(who int, tag string) agg.Rec {
 		r := agg.Rec{Key: k, TCPState: "ESTABLISHED", EndReason: registry.ActiveTimeoutReason, FlowType: registry.FlowTypeInterNode, Start: 1}
 		if who == 1 {
@@ -191,6 +198,24 @@ func Check_Linearizable() {
 			op2 = func() { q1 = int64(a.GetExpiryFromExpirePriorityQueue() >> 30) }
 		case 4:
 			op2 = func() { q2 = int64(len(a.GetRecords(nil))) }
+		case 5:
+			// two expiry scans over a ready, due flow; the callback fails the first
+			// time it is invoked (whichever scan that is) and succeeds afterwards:
+			// in every sequential order exactly one export succeeds
+			calls := 0
+			failFirst := func(fk intermediate.FlowKey, r *intermediate.AggregationFlowRecord) error {
+				calls++
+				if calls == 1 {
+					return errCb
+				}
+				exported++
+				return nil
+			}
+			a.AggregateMsgByFlowKey(agg.Message(r1))
+			a.AggregateMsgByFlowKey(agg.Message(r2))
+			a.VerifShiftDeadlines(-(agg.InactiveTimeout + agg.Tick))
+			op1 = func() { a.ForAllExpiredFlowRecordsDo(failFirst) }
+			op2 = func() { a.ForAllExpiredFlowRecordsDo(failFirst) }
 		}
 		switch order {
 		case 0:
